@@ -51,9 +51,10 @@ pub fn run(args: &Args) -> i32 {
         "all ordered pairs (original, observed) over alphabet heads x tails plus the empty address; \
          non-trivial = pair for which translation returns Some; distinct by (original, observed) text",
     );
+    let tiny = args.extra.get("budget").map(|s| s == "tiny").unwrap_or(false);
     let mut addrs: Vec<Multiaddr> = vec![Multiaddr::empty()];
-    for h in heads() {
-        for t in tails() {
+    for h in heads().into_iter().take(if tiny { 9 } else { usize::MAX }).step_by(if tiny { 2 } else { 1 }) {
+        for t in tails().into_iter().take(if tiny { 3 } else { usize::MAX }) {
             addrs.push(format!("{h}{t}").parse().expect("alphabet parses"));
         }
     }
@@ -91,6 +92,6 @@ pub fn run(args: &Args) -> i32 {
     check.count("pairs_translated", some);
     check.count("pairs_refused", none);
     check.note("alphabet_size", json!(addrs.len()));
-    check.note("exhaustive", json!(true));
+    check.note("exhaustive", json!(!tiny));
     check.finish()
 }
